@@ -1,7 +1,79 @@
-(* C29 — property theorems only *)
+(* C29 — property theorems only: each closed by [exact lemma], followed by Print Assumptions. *)
 From Coq Require Import List NArith ZArith Bool.
-From Verif Require Import C29.Model.
+From Verif Require Import C29.Model C29.Proof.
 Import ListNotations.
 
-Example C29_ex_ptr_twice : observe [OBase 2; OPtr 0; OPtr 0; OFrom (TPtr (TBasic 2))] = [(0%Z, true); (1%Z, true); (1%Z, true); (1%Z, true)].
+(* typeutil.Identical on the modelled term language is decidable structural identity *)
+Theorem C29_term_identity : forall a b, term_eqb a b = true <-> a = b.
+Proof. exact term_eqb_eq. Qed.
+Print Assumptions C29_term_identity.
+
+(* maketype4 on a consistent (go/types term, reflect term) pair keeps the universe invariant, returns THE cache entry
+   of the term and forgets nothing *)
+Theorem C29_maketype4_canonical : forall u g, Inv u -> clean g = true ->
+  let r := maketype4 u g g ODefault in
+  Inv (fst r) /\ ext u (fst r) /\ lookup (cache (fst r)) g = Some (snd r) /\ rcache (fst r) = rcache u.
+Proof. exact maketype4_ok. Qed.
+Print Assumptions C29_maketype4_canonical.
+
+(* FromReflectType meets its specification on every term without func/struct components, for every universe
+   satisfying the invariant (ReflectTypes cache hit or miss) *)
+Theorem C29_from_reflect_simple : forall r, simple r = true ->
+  forall u, clean r = true -> Inv u -> good u (fst (from_reflect r u)) r (snd (from_reflect r u)).
+Proof. exact from_reflect_simple. Qed.
+Print Assumptions C29_from_reflect_simple.
+
+(* ---- histories.  [FRspec] = "FromReflectType meets its specification on every term"; it is proved above for terms
+   without func/struct components and is an explicit premise for the rest (_partial: the list-shaped cases of
+   fromReflectFunc/fromReflectStruct are not proved; they are covered by the correspondence runs). ---- *)
+
+(* C29_canonical: for ALL construction histories (constructors, FromReflectType, in any order, with any repetitions)
+   two results are the same object exactly when the histories' terms are identical *)
+Theorem C29_canonical_partial : FRspec -> forall ops i j a b,
+  nth_error (snd (run ops)) i = Some (Some a) -> nth_error (snd (run ops)) j = Some (Some b) ->
+  (a = b <-> nth_error (denote ops) i = nth_error (denote ops) j).
+Proof. exact canonical. Qed.
+Print Assumptions C29_canonical_partial.
+
+(* C29_pairing_invariant: the go/types side and the reflect side of every result denote the term the history
+   specifies (induction over construction histories) *)
+Theorem C29_pairing_invariant_partial : FRspec -> forall ops i a,
+  nth_error (snd (run ops)) i = Some (Some a) ->
+  exists t x, nth_error (denote ops) i = Some (Some t) /\ get (fst (run ops)) a = Some x /\ ogt x = t /\ ort x = t.
+Proof. exact pairing. Qed.
+Print Assumptions C29_pairing_invariant_partial.
+
+(* the universe invariant holds after every history *)
+Theorem C29_invariant_partial : FRspec -> forall ops,
+  Inv (fst (run ops)) /\ Forall2 (rel (fst (run ops))) (snd (run ops)) (denote ops).
+Proof. exact run_inv. Qed.
+Print Assumptions C29_invariant_partial.
+
+(* an operation is rejected exactly when the specification says it is ill-formed *)
+Theorem C29_rejected_partial : FRspec -> forall ops i,
+  nth_error (snd (run ops)) i = Some None <-> nth_error (denote ops) i = Some None.
+Proof. exact rejected. Qed.
+Print Assumptions C29_rejected_partial.
+
+(* without NamedOf/SetUnderlying no object is ever Forward, recursive or incomplete: the only non-canonical path of
+   maketype4 (mismatched reflect.Type: a second object for the same term) is unreachable *)
+Theorem C29_no_forward_partial : FRspec -> forall ops id x,
+  get (fst (run ops)) id = Some x -> is_fwd (ort x) = false /\ oopt x = ODefault.
+Proof. exact no_forward. Qed.
+Print Assumptions C29_no_forward_partial.
+
+(* ---------------- non-vacuity ---------------- *)
+(* *int three ways, []*int twice, a func and a struct built from them and again from reflect *)
+Definition ex_ops : list op :=
+  [OBase 2; OPtr 0; OPtr 0; OFrom (TPtr (TBasic 2)); OSlice 1; OFrom (TSlice (TPtr (TBasic 2)));
+   OFunc [1; 4] [0] false; OFrom (TFunc [TPtr (TBasic 2); TSlice (TPtr (TBasic 2))] [TBasic 2] false);
+   OStruct [(0%N, 1); (3%N, 6)]; ONamed 7; OMap 9 8; OBase 255; OPtr 11; OPtr 99].
+Example C29_ex_observe : observe ex_ops =
+  [(0, true); (1, true); (1, true); (1, true); (4, true); (4, true); (6, true); (6, true); (8, true); (9, true); (10, true);
+   (-1, false); (-1, false); (-1, false)]%Z.
+Proof. vm_compute. reflexivity. Qed.
+Example C29_ex_denote : nth_error (denote ex_ops) 10 =
+  Some (Some (TMap (TNamed 7) (TStruct [(0%N, TPtr (TBasic 2)); (3%N, TFunc [TPtr (TBasic 2); TSlice (TPtr (TBasic 2))] [TBasic 2] false)]))).
+Proof. vm_compute. reflexivity. Qed.
+Example C29_ex_heap_size : length (heap (fst (run ex_ops))) = 7%nat.   (* 14 operations, 7 objects *)
 Proof. vm_compute. reflexivity. Qed.
